@@ -198,7 +198,14 @@ def depot_limits(ctx):
                            S("add_suitable_start_and_end_depot_to_path"),
                            "a given start depot is kept only if it has capacity; the overflow depot replaces it otherwise")
     if fd is not None:
-        ofl = calls_to(fd, N("overflow_depot_idxs"))
+        OFL = N("overflow_depot_idxs")
+        ofl = calls_to(fd, OFL)
+        # the fallback may live in a private helper: its call site is then the site that must be decided on capacity
+        for c in fd.body.calls():
+            sg = ctx.prog.sigs.get(c.callee or "")
+            if sg is not None and not sg.get("pub") and c.callee != OFL and c.callee in ctx.prog.bodies \
+                    and call(OFL) in ctx.fd(c.callee).ret_slice()["atoms"]:
+                ofl.append(c)
         ok = bool(ofl) and all(call(S("can_depot_spawn_vehicle")) in fd.slice(seed_blocks=[i.bb])["atoms"] for i in ofl)
         dec = fd.decision_slice()["atoms"]
         ctx.decide(o, ok and call(S("can_depot_spawn_vehicle")) in dec and call(S("find_best_start_depot_for_spawning")) in fd.ret_slice()["atoms"],
